@@ -63,6 +63,17 @@ let to_opcode (x : v) : opcode =
   match x with L [t; a1; a2; b1; b2] -> ((to_tag t, (to_nat a1, to_nat a2)), (to_nat b1, to_nat b2)) | _ -> bad "opcode"
 let of_opcode (((t, (a1, a2)), (b1, b2)) : opcode) : v = L [of_tag t; of_nat a1; of_nat a2; of_nat b1; of_nat b2]
 
+let rec to_el (x : v) : el =
+  match x with
+  | L [tag; attrs; text; children; tail; source] ->
+      El (to_str tag, to_dict attrs, to_str text, to_list to_el children, to_str tail, to_str source)
+  | _ -> bad "el"
+let to_rule (x : v) : rule = match x with I 0 -> RJsession | I 1 -> RWayback | I 2 -> RWaybackUk | _ -> bad "rule"
+let to_rules (x : v) = to_opt (to_list to_rule) x
+let of_token (t : token) : v =
+  let k = (match t.t_kind with KWord -> L [I 0] | KHref -> L [I 1] | KImg s -> L [I 2; of_list of_str s] | KUndiff -> L [I 3] | KSpacer -> L [I 4]) in
+  L [k; of_str t.t_text; of_str t.t_html; of_list of_str t.t_pre; of_list of_str t.t_post; of_str t.t_trail]
+
 (* ---- dispatch ---- *)
 let dispatch (fn : Stdlib.String.t) (args : v list) : v =
   match fn, args with
@@ -138,13 +149,19 @@ let dispatch (fn : Stdlib.String.t) (args : v list) : v =
       L [of_nat n; of_list of_entry d]
   | "page_links", [a] -> of_list of_link (page_links (to_list to_anchor a))
   | "links_assemble", [a; b; ops] ->
-      let d = Extracted.assemble_diff (to_list to_link a) (to_list to_link b) (to_list to_opcode ops) in
-      L [of_nat (Extracted.count_changes0 d); of_list of_entry d]
+      let d = x_links_assemble_diff (to_list to_link a) (to_list to_link b) (to_list to_opcode ops) in
+      L [of_nat (x_links_count_changes d); of_list of_entry d]
   | "links_rebalance", [a; b; ops] ->
       of_list of_opcode (rebalance (to_list to_link a) (to_list to_link b) (to_list to_opcode ops))
   | "links_opcodes", [a; b] ->
       of_list of_opcode (get_opcodes same_key rough_eq dlink (to_list to_link a) (to_list to_link b))
   | "clean_href", [h] -> of_str (clean_href (to_str h))
+  | "htmldiff", [o; n; rules; ms] ->
+      let (c, ((comb, ins), del)) = htmldiff (to_el o) (to_el n) (to_rules rules) (to_n ms) in
+      L [of_nat c.change_count; of_nat c.deletions_count; of_nat c.insertions_count; of_str comb; of_str ins; of_str del]
+  | "prepare", [e; ms] -> of_list of_token (prepare (to_el e) (to_n ms))
+  | "tokenize", [e] -> of_list of_token (x_render_tokenize (to_el e))
+  | "merge_changes", [chunks; tt] -> of_list of_str (merge_changes (to_list to_str chunks) (to_str tt))
   | "cors_allow_origin", [conf; rh] ->
       of_opt of_str (cors_allow_origin (to_opt to_str conf) (to_dict rh))
   | "upstream_headers", [q; rh] -> of_dict (upstream_headers (to_dict q) (to_dict rh))
